@@ -7,7 +7,7 @@ theorem decide_safe_store {safeKeys : List Bytes} {key : Bytes}
   unfold decide at h
   simp only at h
   split at h
-  · simp at h
+  · simp only [if_true] at h; split at h <;> cases h
   · split at h
     · split at h <;> cases h
     · split at h
@@ -24,7 +24,7 @@ theorem decide_safe_storeRemote {safeKeys : List Bytes} {key n : Bytes}
   unfold decide at h
   simp only at h
   split at h
-  · simp at h
+  · simp only [if_true] at h; split at h <;> cases h
   · split at h
     · rename_i _ hr
       split at h
@@ -41,7 +41,7 @@ theorem decide_safe_no_ext {safeKeys : List Bytes} {key n : Bytes} :
   unfold decide
   simp only
   split
-  · simp
+  · simp only [if_true]; split <;> simp
   · split
     · split <;> simp
     · split
